@@ -148,8 +148,11 @@ class FuncRef:
         self.name = name or getattr(node, 'name', '<lambda>')
 
     def bind(self, obj):
-        return FuncRef(self.node, self.module, self.cls, obj, self.closure,
-                       self.name)
+        f = FuncRef(self.node, self.module, self.cls, obj, self.closure,
+                    self.name)
+        if hasattr(self, 'decorators'):
+            f.decorators = self.decorators
+        return f
 
     @property
     def qualname(self):
